@@ -9,6 +9,11 @@ import (
 	"crypto/x509"
 	"errors"
 	"fmt"
+	"github.com/notaryproject/notation-go/dir"
+	"github.com/notaryproject/notation-go/verifier/truststore"
+	"os"
+	"path/filepath"
+	"strings"
 	"sync"
 	"testing"
 	"time"
@@ -48,6 +53,11 @@ type Case struct {
 	// RevAction: action of the (code-signing) revocation validation in the level; it has no say
 	// in whether the TSA must be unrevoked. "" = log
 	RevAction string `json:"revAction,omitempty"`
+	// Ctor: "" = NewVerifierWithOptions, "legacy" = the deprecated NewWithOptions (same options)
+	Ctor string `json:"ctor,omitempty"`
+	// RealStore: the directory-backed trust store instead of the scripted one; the ca / signing
+	// authority store and the tsa store carry the SAME name there (types keep them apart)
+	RealStore bool `json:"realStore,omitempty"`
 }
 
 var (
@@ -202,19 +212,23 @@ func check(c Case) (string, string, verdicts) {
 	env := envb.Build(spec)
 	stores := []string{storeType + ":x"}
 	ts := mocks.NewTrustStore().Put(storeType, "x", ch.Root().Cert)
+	tsaName := "t"
+	if c.RealStore {
+		tsaName = "x" // same name as the signing store, another type
+	}
 	if c.TSAStore {
 		switch c.StoreOrd % 4 {
 		case 0:
-			stores = append(stores, "tsa:t")
+			stores = append(stores, "tsa:"+tsaName)
 		case 1: // tsa store listed first
-			stores = append([]string{"tsa:t"}, stores...)
+			stores = append([]string{"tsa:" + tsaName}, stores...)
 		case 2: // between two stores of the signing type
-			stores = []string{storeType + ":x", "tsa:t", storeType + ":second"}
+			stores = []string{storeType + ":x", "tsa:" + tsaName, storeType + ":second"}
 			ts.Put(storeType, "second", otherTSARoot.Cert)
 		case 3: // listed twice
-			stores = []string{"tsa:t", storeType + ":x", "tsa:t"}
+			stores = []string{"tsa:" + tsaName, storeType + ":x", "tsa:" + tsaName}
 		}
-		ts.Put("tsa", "t", tsaRoot.Cert)
+		ts.Put("tsa", tsaName, tsaRoot.Cert)
 	}
 	ts.Put("ca", "decoy", tsaRoot.Cert, otherTSARoot.Cert) // TSA roots in a ca store must never help
 	tsRev := &mocks.Revocation{}
@@ -238,7 +252,30 @@ func check(c Case) (string, string, verdicts) {
 	opts := kit.Options()
 	opts.RevocationTimestampingValidator = tsRev
 	opts.OCITrustPolicy = kit.OCIDoc("p", level.SV(c.Option), stores, []string{"*"})
-	v, err := verifier.NewVerifierWithOptions(ts, opts)
+	var store truststore.X509TrustStore = ts
+	if c.RealStore {
+		root, err := os.MkdirTemp("", "c06-")
+		if err != nil {
+			return "harness", err.Error(), want
+		}
+		defer os.RemoveAll(root)
+		for _, k := range ts.Keys() {
+			typ, name, _ := strings.Cut(k, ":")
+			d := filepath.Join(root, "truststore", "x509", typ, name)
+			os.MkdirAll(d, 0o755)
+			for i, cert := range ts.Certs[k] {
+				os.WriteFile(filepath.Join(d, fmt.Sprintf("c%d.pem", i)), pki.PEM(cert), 0o644)
+			}
+		}
+		store = truststore.NewX509TrustStore(dir.NewSysFS(root))
+	}
+	var v notation.Verifier
+	var err error
+	if c.Ctor == "legacy" {
+		v, err = verifier.NewWithOptions(opts.OCITrustPolicy, store, opts.PluginManager, opts)
+	} else {
+		v, err = verifier.NewVerifierWithOptions(store, opts)
+	}
 	if err != nil {
 		return "harness", "verifier construction: " + err.Error(), want
 	}
@@ -341,6 +378,12 @@ func classes(c Case, v verdicts) []string {
 	if c.Warm != "" {
 		cl = append(cl, "reused-verifier")
 	}
+	if c.Ctor != "" {
+		cl = append(cl, "constructor="+c.Ctor)
+	}
+	if c.RealStore {
+		cl = append(cl, "real-directory-store")
+	}
 	if c.RevAction != "" {
 		cl = append(cl, "revocation-action="+c.RevAction)
 		if v.applies && c.Token == "valid" && c.TSARev == "revoked" {
@@ -438,6 +481,8 @@ func drawCase(rt *rapid.T) Case {
 	c.Warm = rp.Pick(rt, "warm", "", "", "", "plain", "token", "expired")
 	c.StoreOrd = rapid.IntRange(0, 3).Draw(rt, "storeOrder")
 	c.RevAction = rp.Pick(rt, "revAction", "", "", "skip", "skip", "enforce")
+	c.Ctor = rp.Pick(rt, "ctor", "", "", "legacy")
+	c.RealStore = len(c.Windows) > 1 && rapid.IntRange(0, 4).Draw(rt, "realStore") == 0
 	return c
 }
 
